@@ -58,14 +58,24 @@ TOLERANCES = {'bound vs reference': TOL, 'candidate above upper': TOL,
               'lower<=upper plain': TOL, 'lower<=upper whitened (cg)': TOL_CG,
               'invariance': TOL, 'leak': 'bit-identical'}
 BOUNDS = {
-    'quick': {'n_rdm': [2, 3, 4], 'n_cond': [3, 4], 'tierA': ['all 729 ordered pairs over {0,1,2}^3',
-              '324 triples over {0,1,2}^3', '40 pairs over {0,1,2}^6 x 22 NaN masks'],
-              'fills': 3, 'candidate alphabet': '{0,1,2,3}^L', 'cv': 'n_cond 4,6,7; <=4 rdm groups; '
-              'k_fold_rdm all shuffles; k_fold / random <=1 deviation'},
-    'thorough': {'n_rdm': [2, 3, 4], 'n_cond': [3, 4], 'tierA': ['all 729 ordered pairs and all 19683 '
-                 'ordered triples over {0,1,2}^3', '729 pairs over {0,1,2}^6 x 22 NaN masks'],
-                 'fills': 6, 'candidate alphabet': '{0,1,2,3}^L', 'cv': 'n_cond 4,6,7; <=4 rdm groups; '
-                 'k_fold_rdm all shuffles; k_fold / random <=2 deviations'},
+    'quick': {
+        'n_rdm': [2, 3, 4], 'n_cond': [3, 4], 'n_cond (pattern cross-validation)': [6, 7],
+        'tier A': ['all 729 ordered pairs over {0,1,2}^3', '324 ordered triples over {0,1,2}^3 (strided) x all 5 '
+                   'groupings x 3 namings', '40 ordered pairs over {0,1,2}^6 (strided) x all 22 common NaN masks of <= 2'],
+        'tier B': '3 fills (positive, tied integers, signed) per (n_rdm, n_cond) x every set partition of the RDMs '
+                  '(2/5/15) x namings (asc, desc, strings, all k! for k<=3) x all 22 NaN masks (n_cond 4)',
+        'candidates': 'all of {0,1,2,3}^(non-missing entries) (64..4096) + data RDMs + reference pooled + library pooled +- {1e-3, 0.3}*e_i',
+        'transforms': 'each single RDM x {0.5, 3} (cosine), x {0.5, 3} and +1 combined (corr)',
+        'leak': 'every single entry and all entries of every left-out group changed',
+        'cv': '6 generators; every partition of <=4 RDMs x every k / group size; k_fold_rdm every shuffle outcome; '
+              'k_fold, sets_random, k_fold_pattern: all draws with <= 1 non-default answer (2 fills)'},
+    'thorough': {
+        'n_rdm': [2, 3, 4], 'n_cond': [3, 4], 'n_cond (pattern cross-validation)': [6, 7],
+        'tier A': ['all 729 ordered pairs and all 19683 ordered triples over {0,1,2}^3 x all 5 groupings',
+                   '729 ordered pairs over {0,1,2}^6 (strided) x all 22 common NaN masks of <= 2'],
+        'tier B': '6 fills per (n_rdm, n_cond), otherwise as quick',
+        'candidates': 'as quick', 'transforms': 'as quick', 'leak': 'as quick',
+        'cv': 'as quick with <= 2 non-default answers, 6 fills, n_cond 6 and 7 for every pattern generator'},
 }
 
 PLAIN = ['cosine', 'corr', 'rho-a']
